@@ -56,7 +56,7 @@ def exception_class_name(raise_node):
     return d.split('.')[-1]
 
 
-def resolve_locals(fn, expr):
+def resolve_locals(fn, expr, pure_only=True):
     '''expr with once-assigned pure locals of fn replaced by their values, in expression normal form: for rules that only ask
     WHICH values reach a place (not when they are computed)'''
     from .. import normal
@@ -64,7 +64,7 @@ def resolve_locals(fn, expr):
     for n in ast.walk(fn):
         if isinstance(n, ast.Name) and isinstance(n.ctx, ast.Store):
             stores[n.id] = stores.get(n.id, 0) + 1
-        if isinstance(n, ast.Assign) and len(n.targets) == 1 and isinstance(n.targets[0], ast.Name) and normal.is_pure(n.value):
+        if isinstance(n, ast.Assign) and len(n.targets) == 1 and isinstance(n.targets[0], ast.Name) and (normal.is_pure(n.value) or not pure_only):
             single.setdefault(n.targets[0].id, []).append(n.value)
     mapping = {k: v[0] for k, v in single.items() if len(v) == 1 and stores.get(k) == 1}
     cur = expr
